@@ -188,38 +188,31 @@ Lemma safe_go_eq o l :
   = forallb (safe_block o) l.
 Proof. induction l as [|x l IH]; [reflexivity|]. cbn [forallb]. now rewrite <- IH. Qed.
 
-Definition item_safe (tight : bool) (it : list gblock) : bool :=
+Definition item_safe (it : list gblock) : bool :=
   match it with
-  | (GPlain [] | GPara []) :: x :: rest =>
-      headless_start x rest &&
-      negb (tight && existsb is_rule_or_table rest) && (negb tight || no_adjacent_quotes (x :: rest)) &&
-      no_adjacent_lists (x :: rest)
-  | (GPlain (_ :: _) | GPara (_ :: _)) :: rest =>
-      negb (tight && existsb is_rule_or_table rest) && (negb tight || no_adjacent_quotes rest) && no_adjacent_lists it
+  | (GPlain [] | GPara []) :: x :: rest => headless_start x rest && no_adjacent_lists (x :: rest)
+  | (GPlain (_ :: _) | GPara (_ :: _)) :: _ => no_adjacent_lists it
   | _ => false
   end.
 
-Lemma safe_goi_eq o tight its :
-  (fix goi (tight : bool) (its : list (list gblock)) {struct its} : bool :=
+Lemma safe_goi_eq o its :
+  (fix goi (its : list (list gblock)) {struct its} : bool :=
      match its with
      | [] => true
      | it :: r =>
          match it with
          | (GPlain [] | GPara []) :: x :: rest =>
-             headless_start x rest &&
-             negb (tight && existsb is_rule_or_table rest) && (negb tight || no_adjacent_quotes (x :: rest)) &&
-             no_adjacent_lists (x :: rest) &&
+             headless_start x rest && no_adjacent_lists (x :: rest) &&
              (fix go (l : list gblock) {struct l} : bool := match l with [] => true | x :: r => safe_block o x && go r end)
                (x :: rest)
-         | (GPlain (_ :: _) | GPara (_ :: _)) :: rest =>
-             negb (tight && existsb is_rule_or_table rest) && (negb tight || no_adjacent_quotes rest) &&
+         | (GPlain (_ :: _) | GPara (_ :: _)) :: _ =>
              no_adjacent_lists it &&
              (fix go (l : list gblock) {struct l} : bool := match l with [] => true | x :: r => safe_block o x && go r end) it
          | _ => false
          end &&
-         goi tight r
-     end) tight its
-  = forallb (fun it => item_safe tight it && forallb (safe_block o) (item_body it)) its.
+         goi r
+     end) its
+  = forallb (fun it => item_safe it && forallb (safe_block o) (item_body it)) its.
 Proof.
   induction its as [|it its IH]; [reflexivity|]. cbn [forallb]. rewrite <- IH. lazy beta match fix.
   destruct it as [|h rest]; [reflexivity|].
@@ -233,14 +226,14 @@ Lemma safe_quote o bs :
 Proof. cbn [safe_block]. destruct bs; [reflexivity|]. now rewrite safe_go_eq. Qed.
 Lemma safe_blist o its :
   safe_block o (GBList its) =
-  match its with [] => false | _ => forallb (fun it => item_safe (negb (is_sparse its)) it && forallb (safe_block o) (item_body it)) its end.
+  match its with [] => false | _ => forallb (fun it => item_safe it && forallb (safe_block o) (item_body it)) its end.
 Proof. destruct its as [|i0 its]; [reflexivity|]. rewrite <- safe_goi_eq. reflexivity. Qed.
 Lemma safe_olist o its :
   safe_block o (GOList its) =
-  match its with [] => false | _ => forallb (fun it => item_safe (negb (is_sparse its)) it && forallb (safe_block o) (item_body it)) its end.
+  match its with [] => false | _ => forallb (fun it => item_safe it && forallb (safe_block o) (item_body it)) its end.
 Proof. destruct its as [|i0 its]; [reflexivity|]. rewrite <- safe_goi_eq. reflexivity. Qed.
 
-Lemma item_safe_led tight it : item_safe tight it = true -> led it = true.
+Lemma item_safe_led it : item_safe it = true -> led it = true.
 Proof.
   destruct it as [|[[|]|[|]| | | | | | |] [|x rest]]; cbn [item_safe led]; try congruence;
     intros H; repeat (apply andb_prop in H as [H _]); exact H.
@@ -258,13 +251,13 @@ Proof.
   - rewrite safe_olist in H. destruct its as [|i0 its]; [discriminate|].
     cbn [gstruct is_nil negb andb]. apply forallb_forall. intros it Hit.
     rewrite forallb_forall in H. specialize (H it Hit). apply andb_prop in H as [Hl Hs].
-    rewrite (item_safe_led _ _ Hl). cbn [andb]. rewrite gstruct_body. apply forallb_forall. intros x Hx.
+    rewrite (item_safe_led _ Hl). cbn [andb]. rewrite gstruct_body. apply forallb_forall. intros x Hx.
     rewrite Forall_forall in IH. specialize (IH it Hit). apply Forall_body in IH. rewrite Forall_forall in IH. apply IH; auto.
     rewrite forallb_forall in Hs. now apply Hs.
   - rewrite safe_blist in H. destruct its as [|i0 its]; [discriminate|].
     cbn [gstruct is_nil negb andb]. apply forallb_forall. intros it Hit.
     rewrite forallb_forall in H. specialize (H it Hit). apply andb_prop in H as [Hl Hs].
-    rewrite (item_safe_led _ _ Hl). cbn [andb]. rewrite gstruct_body. apply forallb_forall. intros x Hx.
+    rewrite (item_safe_led _ Hl). cbn [andb]. rewrite gstruct_body. apply forallb_forall. intros x Hx.
     rewrite Forall_forall in IH. specialize (IH it Hit). apply Forall_body in IH. rewrite Forall_forall in IH. apply IH; auto.
     rewrite forallb_forall in Hs. now apply Hs.
   - discriminate.
@@ -1179,15 +1172,78 @@ Theorem reparse_depth7_refuted :
   rr ex_opts depth7_written <> depth7_observed.
 Proof. repeat split; try (vm_compute; reflexivity). vm_compute. discriminate. Qed.
 
-(* a rule under the text of an item of a list written tight: a setext underline to pulldown *)
+(* ---------- what a list written tight cannot hold (Project.is_sparse, GraphBlock::is_sparce_list since the
+   repair of F-TIGHTTAIL): the clauses that [reparse_safe] used to carry for tight items, as theorems ------------- *)
+
+Lemma tight_item its it : is_sparse its = false -> In it its ->
+  length (filter is_paragraph it) <= 1 /\ has_absorbed it = false.
+Proof.
+  unfold is_sparse. intros H Hin.
+  assert (E : (Nat.ltb 1 (length (filter is_paragraph it)) || has_absorbed it) = false).
+  { destruct (Nat.ltb 1 (length (filter is_paragraph it)) || has_absorbed it) eqn:E; [|reflexivity].
+    assert (X : existsb (fun item => Nat.ltb 1 (length (filter is_paragraph item)) || has_absorbed item) its = true)
+      by (apply existsb_exists; exists it; auto).
+    congruence. }
+  apply Bool.orb_false_iff in E as [E1 E2]. apply Nat.ltb_ge in E1. auto.
+Qed.
+
+Definition is_gquote (b : gblock) : bool := match b with GQuote _ => true | _ => false end.
+Definition is_grule_or_table (b : gblock) : bool := match b with GRule | GTable _ _ _ => true | _ => false end.
+Definition has_text (b : gblock) : bool := match b with GPlain (_ :: _) | GPara (_ :: _) => true | _ => false end.
+(* two blocks in a row somewhere in [l] that satisfy [p] and [q] *)
+Fixpoint in_a_row (p q : gblock -> bool) (l : list gblock) : bool :=
+  match l with
+  | a :: ((b :: _) as r) => (p a && q b) || in_a_row p q r
+  | _ => false
+  end.
+
+Lemma absorbed_in_a_row p q l :
+  (forall a b, p a = true -> q b = true -> absorbs a b = true) -> has_absorbed l = false -> in_a_row p q l = false.
+Proof.
+  intros Hpq. induction l as [|a [|b r] IH]; intros H; try reflexivity.
+  change (has_absorbed (a :: b :: r)) with (absorbs a b || has_absorbed (b :: r)) in H.
+  apply Bool.orb_false_iff in H as [H1 H2].
+  change (in_a_row p q (a :: b :: r)) with ((p a && q b) || in_a_row p q (b :: r)).
+  rewrite (IH H2), Bool.orb_false_r. destruct (p a) eqn:Ea; [|reflexivity]. destruct (q b) eqn:Eb; [|reflexivity].
+  now rewrite (Hpq a b Ea Eb) in H1.
+Qed.
+
+(* in a list written tight no item holds a rule or a table right under text, nor two quotes in a row, and the
+   text of an item is its only paragraph *)
+Theorem tight_list_calm its it : is_sparse its = false -> In it its ->
+  in_a_row has_text is_grule_or_table it = false /\ in_a_row is_gquote is_gquote it = false /\
+  length (filter is_paragraph it) <= 1.
+Proof.
+  intros H Hin. destruct (tight_item its it H Hin) as [Hp Ha]. repeat split; [| |exact Hp].
+  - apply absorbed_in_a_row; [|exact Ha]. intros a b Ea Eb.
+    destruct a as [[|? ?]|[|? ?]| | | | | | |]; try discriminate Ea; destruct b; try discriminate Eb; reflexivity.
+  - apply absorbed_in_a_row; [|exact Ha]. intros a b Ea Eb.
+    destruct a; try discriminate Ea; destruct b; try discriminate Eb; reflexivity.
+Qed.
+
+(* the witness of F-TIGHTTAIL.  As found the list was written tight, `- a` with the rule on the next line, which is
+   a setext underline to pulldown: the reader returned [DBList [[DHeader (0, 2) 2 [Str "a"]]]], the rule was gone
+   and the clause "no rule under the text of a tight item" kept the shape out of [reparse_safe].  Now the list is
+   written sparse, is in the class, and is re-read as what it is (observed: harness/corpus/NORM.jsonl) *)
 Definition tightrule_written : list gblock := [GBList [[GPlain [Str "a"]; GRule]]].
-Definition tightrule_observed : list dblock := [DBList [[DHeader (0, 2) 2 [Str "a"]]]].
-Theorem reparse_tight_rule_refuted :
-  fst (blocks_md ex_opts LFS [] tightrule_written) = "- a" +++ LFS +++ "  " +++ srepeat "-" 72 +++ LFS /\
-  reparse_safe ex_opts tightrule_written = false /\
-  reparse_safe ex_opts [GBList [[GPara [Str "a"]; GPara [Str "b"]; GRule]]] = true /\
-  rr ex_opts tightrule_written <> tightrule_observed.
-Proof. repeat split; try (vm_compute; reflexivity). vm_compute. discriminate. Qed.
+Definition tightrule_observed : list dblock := [DBList [[DPara (0, 1) [Str "a"]; DRule (2, 3)]]].
+Theorem reparse_tight_rule_repaired :
+  fst (blocks_md ex_opts LFS [] tightrule_written) = "- a" +++ LFS +++ LFS +++ "  " +++ srepeat "-" 72 +++ LFS /\
+  reparse_safe ex_opts tightrule_written = true /\
+  rr ex_opts tightrule_written = tightrule_observed /\
+  project "" (tmap (norm_node ex_ctx) (spec_tree "a" (rr ex_opts tightrule_written))) = tightrule_written.
+Proof. repeat split; vm_compute; reflexivity. Qed.
+
+(* two quotes in a row in an item: written with a blank line between them, re-read as two quotes *)
+Definition tightquotes_written : list gblock :=
+  [GBList [[GPlain [Str "a"]; GQuote [GPara [Str "b"]]; GQuote [GPara [Str "c"]]]]].
+Theorem reparse_tight_quotes_repaired :
+  fst (blocks_md ex_opts LFS [] tightquotes_written) =
+    "- a" +++ LFS +++ LFS +++ "  > b" +++ LFS +++ LFS +++ "  > c" +++ LFS /\
+  reparse_safe ex_opts tightquotes_written = true /\
+  rr ex_opts tightquotes_written =
+    [DBList [[DPara (0, 1) [Str "a"]; DQuote (2, 3) [DPara (2, 3) [Str "b"]]; DQuote (4, 5) [DPara (4, 5) [Str "c"]]]]].
+Proof. repeat split; vm_compute; reflexivity. Qed.
 
 Print Assumptions reparse_levels.
 Print Assumptions reparse_levels_nested.
@@ -1195,3 +1251,5 @@ Print Assumptions reparse_conserves.
 Print Assumptions second_pass_tree.
 Print Assumptions fixpoint_blocks.
 Print Assumptions fixpoint_text.
+Print Assumptions tight_list_calm.
+Print Assumptions reparse_tight_rule_repaired.
